@@ -1,3 +1,4 @@
+import os
 """C13 — every synthesised example satisfies the schema that produced it (element level).
 
 The real pandera strategy algebra (field_element_strategy, every *_strategy, pandas_dtype_strategy, to_numpy_dtype,
@@ -80,6 +81,10 @@ def chain_case(v, kind, names):
                 except (ModelGap, PathAbort):
                     raise
                 except Exception as exc:  # noqa: BLE001 - a strategy that cannot be built reports instead of emitting data
+                    if os.environ.get("PVERIF_DEBUG"):
+                        import traceback
+
+                        traceback.print_exc()
                     return dict(kind="strategy raised " + type(exc).__name__, msg=str(exc)[:120], checks=checks)
         finally:
             PS.st, PS.npst, PS.re = saved
